@@ -54,7 +54,7 @@ def load_sl():
     SL = importlib.import_module('src.single_layer')
     SLE = importlib.import_module('src.single_layer_exact')
     Q = importlib.import_module('src.quadrature')
-    npx = models.NpProxy(dict(exp=_exp, sqrt=models.sqrt_model, zeros=models.zeros_model))
+    npx = models.NpProxy(dict(exp=_exp, sqrt=models.sqrt_model, zeros=models.zeros_model, array=models.array_model))
     SL.np = npx
     SL.expi = _expi
     SL.erf = _erf
